@@ -8,7 +8,7 @@ understands, plus
   these arguments performs (`Runner.microStates`), or `empty-buffer`;
 * `rinitmicro <now> <start|_> <timeout|_>` — the slot tables of every micro-state of the start of a run from
   the current reducer state (`Runner.initStates`); the state does not advance;
-* `admit <nw> <n> <used ids…>` — `_add_or_enqueue_event` on a step with these in-progress worker ids (any
+* `addenq <nw> <n> <used ids…>` — `_add_or_enqueue_event` on a step with these in-progress worker ids (any
   list: duplicates, out of range, more than `nw`): `run <id>`, `queue`, or `crash` (`IndexError`). -/
 open Engine
 
@@ -51,7 +51,7 @@ def step (d : DState) (line : String) : DState × String :=
     match (do let now ← int; let e ← opt ev; let t ← optNat; pure (now, e, t)) ts with
     | some ((now, e, t), []) => (d, sTables (Runner.initStates d.cfg d.st now e t))
     | _ => (d, "bad-op")
-  | "admit" :: ts =>
+  | "addenq" :: ts =>
     match (do let nw ← nat; let used ← counted nat; pure (nw, used)) ts with
     | some ((nw, used), []) =>
       let ss : StepState := { inProg := used.map (fun w =>
@@ -62,7 +62,7 @@ def step (d : DState) (line : String) : DState × String :=
         else match r.2.filterMap (fun c => match c with | .runWorker _ _ w => some w | _ => none) with
           | w :: _ => s!"run {w}"
           | [] => "queue"
-      (d, out ++ " ;; " ++ sList toString (r.1.inProg.map (·.wid)) ++ s!" ;; pick {sOptNat (pickSlot used nw)}")
+      (d, out ++ " ;; " ++ sList toString (r.1.inProg.map (·.wid)) ++ s!" ;; {r.1.queue.length}")
     | _ => (d, "bad-op")
   | _ => Drv.Engine.step d line
 
